@@ -16,9 +16,11 @@ def run(ctx):
     ents = [1, 2, 3, 4, 5] if ctx.quick() else list(ring.ENTRIES)
     ring.run_entries(ctx, ents, ['sse_t1'] if ctx.quick() else ['sse_t1', 'avx512_t1'], timeout=1500 if ctx.quick() else 3600, desc=True)
     l1.run_k1(ctx)
+    from props import asm_hmac
+    asm_hmac.run_family(ctx, PROP)      # descriptor write set / status of the HMAC managers (machine code)
     ctx.samples.append('for ALL int e: imb_get_strerror(e) != NULL; IMB_ERR_MIN<e<IMB_ERR_MAX => a library message, listed once in imb_errno_types[]')
     ctx.samples.append('any ring state, any stale errno: SUBMIT_JOB leaves errno 0 on success / the validator code on rejection; every caller-owned field of every ring job unchanged')
-    ctx.outside.append('descriptor writes performed inside assembly managers (covered byte-exactly by the asmx write-set check of C04)')
+    ctx.outside.append('descriptor writes performed inside assembly managers other than the AES-CBC-encrypt (C04) and SSE HMAC ones')
 
 
 if __name__ == '__main__':
